@@ -110,7 +110,7 @@ package remote
 //@   requires [wf] resp != nil && resp.Request != nil && resp.Body != nil
 //@   call io.ReadAll requires [C13,C15:body-read-through-limit] limitOf(args.r) == effLimit(maxMetadataBytes) && limitedFrom(args.r) == old(resp.Body)
 //@   ensures [C13:digest-of-body] result1 == nil ==> strlen(result0) > 0
-//@   modifies alloc, http.Response.Body, ghost.closedRC, elems[byte]
+//@   modifies alloc, http.Response.Body, ghost.closedRC, ghost.readerOver, elems[byte]
 //@
 //@ func (*manifestStore).generateDescriptor
 //@   requires [wf] resp != nil && resp.Request != nil && resp.Body != nil && s.repo != nil
